@@ -311,7 +311,7 @@ def numobs_check(prop, path, outdir):
         if eb != int(bits, 16) or ei != int(iv):
             bad += 1
             if owns(prop, 'C02') and bad <= 5:
-                rp = os.path.join(outdir, 'C02-num-%d.case' % bad)
+                rp = os.path.join(outdir, 'C02-num-%s-%d.case' % (os.path.basename(path).split('.')[0], bad))
                 open(rp, 'w').write('# number literal %s: parsed to bits %s valueint %s, correctly rounded is %016x valueint %d\n' % (lex, bits, iv, eb, ei))
                 out.append('VIOLATION property=C02 replay=%s :: number literal %s decoded to %s (int %s), expected %016x (int %d)' % (rp, lex, bits, iv, eb, ei))
     return '\n'.join(out) + ('\n' if out else '')
@@ -326,9 +326,10 @@ def textcheck(prop, path, outdir, V):
         return '', 0
     if not lines:
         return '', 0
-    cfg = os.path.join(outdir, 'textcheck.cfg')
+    tag = os.path.basename(path).split('.')[0]       # runs of one check execute side by side: own scratch names per run
+    cfg = os.path.join(outdir, 'textcheck-%s.cfg' % tag)
     open(cfg, 'w').write('CONSTANTS\n MaxDepth = 1000\nINIT Init\nNEXT Next\nINVARIANTS Judge\nCHECK_DEADLOCK FALSE\n')
-    md = os.path.join(outdir, 'md-textcheck')
+    md = os.path.join(outdir, 'md-textcheck-' + tag)
     env = dict(os.environ); env['DRIFT'] = path
     r = subprocess.run('cd %s/spec && timeout 1200 ../tools/tlc.sh -workers 1 -metadir %s -config %s MC_TextCheck.tla 2>&1' % (V, md, cfg), shell=True, env=env, capture_output=True, text=True)
     shutil.rmtree(md, ignore_errors=True)
@@ -337,7 +338,7 @@ def textcheck(prop, path, outdir, V):
         n += 1
         if m.group(2) == 'FALSE' and owns(prop, 'C05') and len(out) < 10:
             i = int(m.group(1))
-            rp = os.path.join(outdir, 'C05-text-%d.case' % i)
+            rp = os.path.join(outdir, 'C05-text-%s-%d.case' % (tag, i))
             open(rp, 'w').write(lines[i - 1] + '\n')
             out.append('VIOLATION property=C05 replay=%s :: printed text is not one RFC 8259 text denoting the tree (judged by the TLA+ grammar): %s' % (rp, lines[i - 1][:200]))
     if n != len(lines):
@@ -354,9 +355,10 @@ def utilcheck(prop, path, outdir, V):
         return '', 0
     if not lines:
         return '', 0
-    cfg = os.path.join(outdir, 'utilcheck.cfg')
+    tag = os.path.basename(path).split('.')[0]
+    cfg = os.path.join(outdir, 'utilcheck-%s.cfg' % tag)
     open(cfg, 'w').write('INIT Init\nNEXT Next\nINVARIANTS Judge\nCHECK_DEADLOCK FALSE\n')
-    md = os.path.join(outdir, 'md-utilcheck')
+    md = os.path.join(outdir, 'md-utilcheck-' + tag)
     env = dict(os.environ); env['RECORDS'] = path
     r = subprocess.run('cd %s/spec && timeout 2400 ../tools/tlc.sh -workers 1 -metadir %s -config %s MC_UtilCheck.tla 2>&1' % (V, md, cfg), shell=True, env=env, capture_output=True, text=True)
     shutil.rmtree(md, ignore_errors=True)
@@ -366,7 +368,7 @@ def utilcheck(prop, path, outdir, V):
         if m.group(2) == 'FALSE':
             i = int(m.group(1)); rec = json.loads(lines[i - 1]); owner = {'patch': 'C17', 'merge': 'C18', 'sort': 'C19'}.get(rec['k'], 'C17')
             if owns(prop, owner) and len(out) < 10:
-                rp = os.path.join(outdir, '%s-record-%d.case' % (owner, i))
+                rp = os.path.join(outdir, '%s-record-%s-%d.case' % (owner, tag, i))
                 open(rp, 'w').write(lines[i - 1] + '\n')
                 out.append(('VIOLATION property=%s replay=%s :: the recorded order after sorting is not a sorted permutation of the members (judged by MC_UtilCheck): %s' % (owner, rp, lines[i - 1][:300])) if owner == 'C19' else 'VIOLATION property=%s replay=%s :: the generated %s does not transform from into to under the declarative RFC evaluator: %s' % (owner, rp, 'patch' if owner == 'C17' else 'merge patch', lines[i - 1][:240]))
     if n != len(lines):
@@ -597,7 +599,7 @@ def run_tracetree(prop, run, outdir, bins, seed, V, REPO):
                 owners |= OWN.get(pa, set()) & {'C16', 'C17', 'C18'}
                 k -= 1
         if owns(prop, owners) or (verdict[0] == 'inv' and not lib):
-            rp = os.path.join(outdir, '%s-trace.case' % prop)
+            rp = os.path.join(outdir, '%s-%s.case' % (prop, run['name']))
             open(rp, 'w').write('# trace %s, event %s\n%s\n' % (trace, idx, ev))
             what = ('invariant %s fails on the recorded heap' % verdict[1]) if verdict[0] == 'inv' else ('recorded step %d (%s) is not a step of Tree.tla: post-heap / result / query answers differ from every admitted outcome' % (idx, act))
             out.append('VIOLATION property=%s replay=%s :: history recorded from the real library: %s' % (prop, rp, what))
